@@ -59,7 +59,7 @@ var propertyCanaries = map[string][]string{
 	"C01": {"RET.offset", "LOOPIDX.continue", "ARGS.lenvalue", "STRIDE.stepbound", "STRIDE.flatfill", "ALPHA.noread", "STRIDE.fullrange", "STRIDE.unitidx", "FLAG.unitdiag", "BETA.noread", "BETA.quickret", "BETA.scaleguard", "FLAG.neginc", "STRIDE.index", "STRIDE.len", "STRIDE.start", "STRIDE.rowoffset", "STRIDE.extent", "FLAG.trans", "TWIN.generated", "ASM.units", "ASM.lost"},
 	"C02": {"ARGS.lenvalue", "STRIDE.argmaxbase", "WORK.init", "FLAG.cholorder", "ARGS.callee", "FLAG.unset", "FLAG.unitdiag", "WORKSIZE.fallback", "OKFLOW.loopstatus", "FACTKIND.pair", "ARGS.order", "ARGS.lencheck", "ARGS.query", "LOOPIDX.unused", "OKFLOW.report", "STRIDE.vecinc", "WORKSIZE.min", "WORKSIZE.querylen"},
 	"C03": {"LOOPFLAG.stale", "WORK.init", "FLAG.cholorder", "ARGS.callee", "FLAG.unset", "FLAG.unitdiag", "WORKSIZE.fallback", "GUARD.operand", "FLAG.uplomap", "STRIDE.veclda", "FACTKIND.pair", "LOOPIDX.origin", "ARGS.order", "ARGS.lencheck", "ARGS.query", "LOOPIDX.unused", "OKFLOW.report", "STRIDE.workld", "STRIDE.worknext", "WORKSIZE.min"},
-	"C04": {"STRIDE.wholecopy", "USE.empty", "STRIDE.stepbound", "BAND.rowcol", "MAT.access", "MAT.selfguard", "ZEROED.paths", "SWAP.cond", "STRIDE.contig", "TWIN.bounds", "NILRECV"},
+	"C04": {"RESET.caps", "STRIDE.wholecopy", "USE.empty", "STRIDE.stepbound", "BAND.rowcol", "MAT.access", "MAT.selfguard", "ZEROED.paths", "SWAP.cond", "STRIDE.contig", "TWIN.bounds", "NILRECV"},
 	"C05": {"USE.empty", "MAT.doublepass", "OVERLAP.lattice", "MAT.guardorder", "FACT.alias", "OVERLAP.extent", "OVERLAP.guard", "MODSET.mat", "OVERLAP.symmetric", "TWIN.shadow"},
 	"C06": {"FACT.condpath", "FACT.alias", "FACT.failstate", "INIT.state", "ERR.overwrite", "ERR.swallow", "FACT.deadloop", "FACT.reuse", "FLAG.unset", "OKFLOW.condpath", "FACT.condafter", "FACTKIND.pair", "OKFLOW.use", "OKFLOW.cond", "OKFLOW.report", "FACT.normorder", "FACT.state", "FACT.condunit", "NILRECV"},
 	"C07": {"ARGS.lenvalue", "MAT.access", "ARGS.callee", "ARGS.ldcols", "ARGS.workquery", "ARGS.condlen", "ARGS.arms", "ARGS.strict", "ARGS.fullrow", "WORKSIZE.querylen", "ARGS.order", "ARGS.lencheck", "ARGS.query", "MAT.order", "ASM.window", "ASM.tail", "STRIDE.len"},
@@ -129,6 +129,7 @@ func init() {
 		{"DECODE.square", "graph/encoding/digraph6/digraph6.go", "\tif n != 0 && n > maxInt/n {\n\t\t// n*n overflows; no data can be that long.\n\t\treturn false\n\t}\n", "\t_ = maxInt\n", func() *core.Result { return decode.RunSquare(def, "./graph/encoding/digraph6") }},
 		{"RET.offset", "blas/gonum/level1float32_sdsdot.go", "\t\t\treturn alpha\n", "\t\t\treturn 0\n", func() *core.Result { return flagx.RunRetOffset(def, core.Pkgs("./blas/gonum")) }},
 		{"STRIDE.wholecopy", "mat/dense.go", "copy(m.mat.Data, amat.Data[:n])", "copy(m.mat.Data, amat.Data)", func() *core.Result { return stride.RunWholeCopy(def, core.Pkgs("./mat")) }},
+		{"RESET.caps", "mat/dense.go", "\tm.capRows, m.capCols = 0, 0\n", "", func() *core.Result { return zeroed.RunResetCaps(def) }},
 		{"ARGS.workquery", "lapack/gonum/dgeqrf.go", "case len(work) < max(1, lwork):", "case len(work) < lwork:", func() *core.Result { return flagx.RunWorkQuery(def, core.Pkgs("./lapack/gonum")) }},
 		{"ARGS.callee", "lapack/gonum/dsytrd.go", "case len(d) < n:", "case len(d) < n-1:", func() *core.Result { return worksize.RunCallee(def, core.Pkgs("./lapack/gonum")) }},
 		{"GRAPHINV.together", "graph/simple/weighted_undirected.go", "\tif fm, ok := g.edges[fid]; ok {\n\t\tfm[tid] = e\n\t} else {", "\tif fm, ok := g.edges[fid]; ok {\n\t\t_, exists := fm[tid]\n\t\tfm[tid] = e\n\t\tif exists {\n\t\t\treturn\n\t\t}\n\t} else {", func() *core.Result { return graphinv.Run(def) }},
